@@ -114,7 +114,7 @@ def write_replay(prop: str, finding: Dict[str, Any]) -> str:
     os.makedirs(os.path.join(VERIF_DIR, "replays"), exist_ok=True)
     body = {"property": prop, "sig": finding["sig"], "what": finding["what"], "case": finding["case"],
             "detail": finding.get("detail")}
-    h = hashlib.sha1(json.dumps(body["case"], sort_keys=True, default=str).encode()).hexdigest()[:12]
+    h = hashlib.sha1((finding["sig"] + json.dumps(body["case"], sort_keys=True, default=str)).encode()).hexdigest()[:12]
     path = os.path.join(VERIF_DIR, "replays", f"{prop}-{h}.json")
     with open(path, "w") as f:
         json.dump(body, f, indent=1, default=str)
@@ -178,6 +178,8 @@ def main(argv: Optional[List[str]] = None) -> int:
             results.append(fu.result())
     m = merge(results)
 
+    if hasattr(mod, "finalize"):
+        mod.finalize(m["counters"])
     known = load_known(prop)
     inconclusive: List[str] = []
     if dep_err:
